@@ -526,3 +526,27 @@ pub fn tricky_variant(rng: &mut Rng) -> MultiPolygon<f64> {
 fn gcd(a: i64, b: i64) -> i64 {
     if b == 0 { a } else { gcd(b, a % b) }
 }
+
+// ---------------------------------------------------------------------------------------------
+// long geometries: more vertices than any small-input threshold (16 / 32 / 64 / 128 / 256 / 1024) an
+// implementation might switch code paths at; all on the integer lattice, so every model stays exact
+
+/// strictly convex lattice polygon with `2m + 2` distinct vertices: the parabola `(i, i²)`, `i = −m … m`, closed by
+/// the chord on top; counter-clockwise, closed ring
+pub fn parabola_ring(m: i64) -> Vec<Coord<f64>> {
+    let mut v: Vec<Coord<f64>> = (-m..=m).map(|i| c(i, i * i)).collect();
+    let first = v[0];
+    v.push(first);
+    v
+}
+
+/// simple zig-zag path with `n` vertices: `(i, 0)` / `(i, h)` alternating, starting at `(x0, y0)`; `vertical` swaps the axes
+pub fn zigzag(n: usize, h: i64, x0: i64, y0: i64, vertical: bool) -> Vec<Coord<f64>> {
+    (0..n as i64).map(|i| { let (x, y) = (x0 + i, y0 + if i % 2 == 0 { 0 } else { h }); if vertical { c(y, x) } else { c(x, y) } }).collect()
+}
+
+/// a vertex count just beyond a typical threshold
+pub fn long_count(rng: &mut Rng) -> usize {
+    let base = *rng.pick(&[17usize, 33, 65, 65, 129, 129, 257, 257, 300, 513, 1025]);
+    base + rng.below(6) as usize
+}
